@@ -109,9 +109,9 @@ package icmp
 //@ func NewPacketFiller
 //@   props C05 C01 C02 C11 C17 C19 C07 C13
 //@   observe rand.Read, o
-//@   entry row init:  [call rand.Read(bind_p)] when len(p) == 48 -> loop 0
-//@   loop 0 row apply: [call o(bind_x)] when fresh(x) -> continue
-//@   loop 0 row done:  [] when fresh(ret) -> exit
+//@   entry row init:  [call rand.Read(bind_p)] when len(p) == 48 && f.payload == p && f.ttl == 64 && f.proto == 1 && f.flags == 2 && f.typ == 8 && f.code == 0 && f.length == 0 && !f.vpnMode -> loop 0
+//@   loop 0 row apply: [call o(bind_x)] when x == f -> continue
+//@   loop 0 row done:  [] when fresh(ret) && ret == f -> exit
 
 // C06: parser registration (see pkg/scan/arp): first layer Ethernet, or IPv4 in VPN mode; own Ethernet/IPv4/ICMPv4 structs
 //@ func NewPacketProcessor
